@@ -191,10 +191,18 @@ theorem findKeyLoop_lossless (enc : Enc) (mode : KeyMode) (cur un : List Nat) (k
 
 /-! ### table keys -/
 
-/-- `k` is the name the tables give `u` in this naming mode (bytes mode: the bytes themselves) -/
-def tableName (T : KeyTables) (u : List Nat) : KeyMode → KeyVal → Prop
-  | .curtsies, k => ∀ n, T.curtsies.lookup u = some n → k = .text n
-  | .curses, k => ∀ n, T.curses.lookup u = some n → k = .text n
+/-- `k` is what the property calls "its table name" for the table key `u` in this naming mode:
+    curtsies: `u` HAS a curtsies name and `k` is it; curses: the curses name when there is one, otherwise (the
+    ~340 curtsies-only entries) the decoded bytes, or `xHH` for a single undecodable byte; bytes: the bytes. -/
+def tableName (T : KeyTables) (u : List Nat) (enc : Enc) : KeyMode → KeyVal → Prop
+  | .curtsies, k => ∃ n, T.curtsies.lookup u = some n ∧ k = .text n
+  | .curses, k =>
+    match T.curses.lookup u with
+    | some n => k = .text n
+    | none =>
+      match decode enc u with
+      | some cs => k = .text cs
+      | none => ∃ b, u = [b] ∧ k = .text (xName b)
   | .bytes, k => k = .bytes u
 
 theorem isKey_entry (hT : T.WF) {u : List Nat} (hu : T.isKey u = true) :
@@ -208,15 +216,13 @@ theorem keyKnown_of_isKey {u : List Nat} (hu : T.isKey u = true) (enc : Enc) : k
   simp [keyKnown, hu]
 
 theorem keyName_isKey (hT : T.WF) {u : List Nat} (hu : T.isKey u = true) (enc : Enc) (mode : KeyMode) :
-    ∃ k, keyName T u enc mode = .ok k ∧ tableName T u mode k := by
+    ∃ k, keyName T u enc mode = .ok k ∧ tableName T u enc mode k := by
   obtain ⟨hne, hb, hl, hm⟩ := isKey_entry hT hu
   cases mode with
   | bytes => exact ⟨_, rfl, rfl⟩
   | curtsies =>
     cases h : T.curtsies.lookup u with
-    | some n =>
-      refine ⟨.text n, by simp [keyName, h], ?_⟩
-      intro n' hn'; rw [h] at hn'; cases hn'; rfl
+    | some n => exact ⟨.text n, by simp [keyName, h], n, h, rfl⟩
     | none =>
       exfalso
       simp only [KeyTables.isKey, h, Option.isSome_none, Bool.false_or, Option.isSome_iff_exists] at hu
@@ -225,16 +231,13 @@ theorem keyName_isKey (hT : T.WF) {u : List Nat} (hu : T.isKey u = true) (enc : 
       simp [h] at this
   | curses =>
     cases h : T.curses.lookup u with
-    | some n =>
-      refine ⟨.text n, by simp [keyName, h], ?_⟩
-      intro n' hn'; rw [h] at hn'; cases hn'; rfl
+    | some n => exact ⟨.text n, by simp [keyName, h], by simp [tableName, h]⟩
     | none =>
-      have hv : ∀ k, tableName T u .curses k := by intro k n hn; rw [h] at hn; cases hn
       cases hd : decode enc u with
-      | some cs => exact ⟨.text cs, by simp [keyName, h, hd], hv _⟩
+      | some cs => exact ⟨.text cs, by simp [keyName, h, hd], by simp [tableName, h, hd]⟩
       | none =>
         match u, hne, hm, hd, h with
-        | [b], _, _, hd, h => exact ⟨.text (xName b), by simp [keyName, h, hd], hv _⟩
+        | [b], _, _, hd, h => exact ⟨.text (xName b), by simp [keyName, h, hd], by simp [tableName, h, hd]⟩
         | b :: c :: t, _, hm, hd, _ =>
           have := decodable_ascii (b :: c :: t) (hm (by simp)).2 enc
           rw [this] at hd; cases hd
